@@ -91,6 +91,18 @@ def wire_ttl_check(outs, cached, now, sig):
         for p_ in pk:
             if len(p_) > const._MAX_MSG_TYPICAL:
                 bad.append(("C13:packet-size", "query packet of %d bytes" % len(p_)))
+        # split over several packets: every question once, every known answer handed to the builder in exactly one packet
+        wire_q = sorted(C.question_line(q) for m in msgs for q in m.questions)
+        if wire_q != sorted(C.question_line(q) for q in o.questions):
+            bad.append(("C13:split-questions", "the %d packets of one query carry questions %s, the query has %s" % (len(pk), wire_q, sorted(C.question_line(q) for q in o.questions))))
+        def ident(r):  # identity + rdata, without TTL and creation time
+            t = C.rec_line(r, created=0).split(" ")
+            return " ".join(t[:5] + t[7:])
+
+        wire_a = sorted(ident(a) for m in msgs for a in m.answers())
+        want_a = sorted(ident(r) for (r, t) in o.answers if not r.is_expired(now))
+        if wire_a != want_a:
+            bad.append(("C13:split-answers", "the %d packets of one query carry %d known answers, the query lists %d" % (len(pk), len(wire_a), len(want_a))))
         for m in msgs:
             for a in m.answers():
                 src = [r for r in cached if r == a]
@@ -278,7 +290,7 @@ def run_svc(case, res):
 # stream req
 
 
-def gen_req_case(rng):
+def gen_req_case(rng, many=0):
     now = 1_000_000 + rng.randint(0, 10**6)
     name = "Dev." + T
     server = rng.choice(["host.local.", "Host.Local.", name])
@@ -288,6 +300,12 @@ def gen_req_case(rng):
             ttl = rng.choice([120, 4500, 10])
             age = rng.choice([0, ttl * 500 - 1, ttl * 500, ttl * 500 + 1, ttl * 1000, rng.randint(0, ttl * 1000)])
             recs.append([kind, ttl, now - age])
+    if many:
+        # more address records than one packet holds (about 88 A records of a compressed name): the query is split, TC on all but the last
+        ttl = rng.choice([120, 4500])
+        for i in range(many):
+            age = rng.choice([0, 0, 0, 0, 1000, 1000, ttl * 500 - 1, ttl * 500 - 1, ttl * 500, rng.randint(0, ttl * 1000)])
+            recs.append(["am", ttl, now - age, i])
     prevgap = rng.choice([None, 0, 500, 998, 999, 1000, 1001])
     return {"stream": "req", "now": now, "name": name, "server": server, "recs": recs, "qu": rng.random() < 0.4, "prevgap": prevgap,
             "prevqu": rng.random() < 0.3}
@@ -301,8 +319,10 @@ def run_req(case, res):
     now = case["now"]
     name, server = case["name"], case["server"]
     recs = []
-    for kind, ttl, cr in case["recs"]:
-        if kind == "s":
+    for kind, ttl, cr, *idx in case["recs"]:
+        if kind == "am":
+            recs.append(DNSAddress(server, const._TYPE_A, const._CLASS_IN | const._CLASS_UNIQUE, ttl, bytes([10, 1, idx[0] // 250, idx[0] % 250]), created=float(cr)))
+        elif kind == "s":
             recs.append(DNSService(name, const._TYPE_SRV, const._CLASS_IN | const._CLASS_UNIQUE, ttl, 0, 0, 80, server, created=float(cr)))
         elif kind == "t":
             recs.append(DNSText(name, const._TYPE_TXT, const._CLASS_IN | const._CLASS_UNIQUE, ttl, b"\x03a=1", created=float(cr)))
@@ -361,7 +381,7 @@ def run_req(case, res):
             bad.append(("C13:lookup-question-presence", "lookup question %s/%d is %s; expected %s (QU=%s, earlier QM ask %s ms ago, fresh answers %d)"
                         % (qn, qt, "asked" if asked else "absent", "asked" if expect else "absent", case["qu"],
                            None if case["prevqu"] else case["prevgap"], len(k_now))))
-    sig = (case["qu"], case["prevgap"], case["prevqu"], tuple(sorted(k for k, _, _ in case["recs"])), len(out.questions))
+    sig = (case["qu"], case["prevgap"], case["prevqu"], tuple(sorted({r[0] for r in case["recs"]})), len(out.questions), len(out.packets()))
     return [(line, impl)], bad, sig
 
 
@@ -658,8 +678,13 @@ def gen_loop_case(rng):
     if r < 0.35:
         arrive = {"at": rng.choice([100, 230, 300, 400, 600, 1300, rng.randint(0, timeout)]), "what": rng.choice(["srv", "srv", "srv+txt", "txt", "all"])}
     tick = rng.choice([None, None, 250, 300, 350, 400, 600]) if arrive is None else None
-    return {"stream": "loop", "simseed": rng.randint(0, 10**6), "timeout": timeout, "forced": rng.choice([None, None, None, "QU", "QM"]), "arrive": arrive,
+    case = {"stream": "loop", "simseed": rng.randint(0, 10**6), "timeout": timeout, "forced": rng.choice([None, None, None, "QU", "QM"]), "arrive": arrive,
             "tick_at": tick}
+    if arrive is None and rng.random() < 0.12:
+        # address records named like the instance (asked while no SRV is known), more than one packet holds: every query of the
+        # real lookup goes out as a TC train
+        case["many"] = {"n": rng.choice([100, 150, 250]), "ttl": rng.choice([4, 120, 4500]), "age": rng.choice([0, 1000, 1500])}
+    return case
 
 
 def run_loop(case, res):
@@ -678,6 +703,11 @@ def run_loop(case, res):
         zc = host.zc
         await zc.async_wait_for_start()
         await sim.sleep_ms(3000)
+        if case.get("many"):
+            mn = case["many"]
+            o["pre"] = [DNSAddress(name, const._TYPE_A, const._CLASS_IN | const._CLASS_UNIQUE, mn["ttl"], bytes([10, 1, i // 250, i % 250]),
+                                   created=float(sim.loop.ms - mn["age"])) for i in range(mn["n"])]
+            zc.cache.async_add_records(o["pre"])
         info = AsyncServiceInfo(T, name)
         cls = I.ServiceInfo
         og, ow = cls._generate_request_query, cls.async_wait
@@ -759,10 +789,35 @@ def run_loop(case, res):
     case["_start"] = start
     # ---- oracle on the datagrams
     queries = []
+    trains = []      # one transmitted query = a TC train: the datagram with the questions and its continuations
+    open_ = None
     for (t, src, ip, port, data) in sim.net.log:
         m = DNSIncoming(data)
-        if m.is_query() and any(q.name.lower() in (name.lower(), "host.local.") for q in m.questions):
+        if not m.is_query():
+            continue
+        if open_ is not None and not m.questions:
+            open_["msgs"].append(m)
+            open_["sizes"].append(len(data))
+            if not m.truncated:
+                open_ = None
+            continue
+        if any(q.name.lower() in (name.lower(), "host.local.") for q in m.questions):
             queries.append((t + vsim.T0, [q.unique for q in m.questions], sorted((q.name, q.type) for q in m.questions)))
+            trains.append({"t": t + vsim.T0, "msgs": [m], "sizes": [len(data)]})
+            open_ = trains[-1] if m.truncated else None
+    for tr in trains:
+        tcs = [m.truncated for m in tr["msgs"]]
+        if tcs != [True] * (len(tcs) - 1) + [False]:
+            bad.append(("C13:tc-bits", "TC bits of the packets of the lookup query at +%d ms are %s" % (tr["t"] - o["start"], tcs)))
+        if any(sz > const._MAX_MSG_TYPICAL for sz in tr["sizes"]):
+            bad.append(("C13:packet-size", "lookup query packet sizes %s" % tr["sizes"]))
+        if case.get("many") and any(q.name.lower() == name.lower() and q.type == const._TYPE_A for q in tr["msgs"][0].questions):
+            # known answers of the A question: exactly the cached records with more than half their TTL left, each with its remaining TTL
+            want = sorted((r.address, int((r.created + 1000 * r.ttl - tr["t"]) // 1000)) for r in o["pre"] if tr["t"] < r.created + 500 * r.ttl)
+            got = sorted((a.address, a.ttl) for m in tr["msgs"] for a in m.answers() if a.type == const._TYPE_A and a.name.lower() == name.lower())
+            if got != want:
+                bad.append(("C13:lookup-known-answers", "the lookup query at +%d ms (%d packets) lists %d known A records, %d cached ones have more than half "
+                            "their TTL left (first difference: %s)" % (tr["t"] - o["start"], len(tr["msgs"]), len(got), len(want), sorted(set(got) ^ set(want))[:2])))
     if queries:
         first_qu = case["forced"] != "QM"
         if any(b != first_qu for b in queries[0][1]):
@@ -770,16 +825,32 @@ def run_loop(case, res):
         for (t, qus, qs) in queries[1:]:
             if any(qus):
                 bad.append(("C13:lookup-later-query-qu", "a later lookup query at +%d ms is QU" % (t - start)))
+        def known_of(tr):
+            """question -> identities of the known answers listed for it in this (possibly multi-packet) query"""
+            ans = [a for m in tr["msgs"] for a in m.answers()]
+            return {(q.name.lower(), q.type): frozenset(C.rec_line(a, created=0).split(" ", 7)[-1] for a in ans if a.name.lower() == q.name.lower() and a.type == q.type)
+                    for q in tr["msgs"][0].questions}
+
+        gens = [ev for ev in log if ev[0] == "gen"]
         for i in range(2, len(queries)):
             gap = queries[i][0] - queries[i - 1][0]
             if gap < 1000:
-                # D13's signature: the third query is early because *new* questions appeared; a mere repeat of questions already
-                # asked in the second query is not D13
-                new_qs = set(queries[i][2]) - set(queries[i - 1][2])
-                sig = D13_SIG if (i == 2 and new_qs) else "C13:lookup-spacing"
-                bad.append((sig, "lookup queries at +%d and +%d ms: query %d is %d ms after query %d (questions %s)"
-                            % (queries[i - 1][0] - start, queries[i][0] - start, i + 1, gap, i, queries[i][2])))
-    sig = ("loop", case["timeout"], case["forced"], bool(case["arrive"]) and case["arrive"]["what"], len(queries), len(iters))
+                # D13's input class, exactly (DESIGN 5 D13; `C13_lookup_spacing_partial` starts after the first QM request):
+                #  * the lookup is not forced to QM (then the first request is QU and the second is the first QM one: `delay` is still
+                #    200 ms when the third request is scheduled);
+                #  * the early query is the third request generated, the one before it the second, and it comes 200 ms + jitter
+                #    (220..320 ms) after it;
+                #  * it is transmitted because it is not a duplicate: every question in it is new, or lists fewer known answers than
+                #    the second query did (records arrived / went stale in between), so the history rightly does not suppress it.
+                # Anything else -- another gap, a later pair, a forced-QM lookup, a mere repeat of the second query -- is a different defect.
+                k_prev, k_now = known_of(trains[i - 1]), known_of(trains[i])
+                not_dup = all(q not in k_prev or not (k_prev[q] <= k_now[q]) for q in k_now)
+                third = (i == 2 and len(gens) > 2 and gens[1][1] == queries[1][0] and gens[2][1] == queries[2][0])
+                sig = D13_SIG if (third and case["forced"] != "QM" and 220 <= gap <= 320 and not_dup) else "C13:lookup-spacing"
+                bad.append((sig, "lookup queries at +%d and +%d ms: query %d is %d ms after query %d (questions %s; %s)"
+                            % (queries[i - 1][0] - start, queries[i][0] - start, i + 1, gap, i, queries[i][2],
+                               "none of them a duplicate of the previous query's" if not_dup else "repeating the previous query")))
+    sig = ("loop", case["timeout"], case["forced"], bool(case["arrive"]) and case["arrive"]["what"], len(queries), len(iters), max([len(tr["msgs"]) for tr in trains] + [0]))
     return pairs, bad, sig
 
 
@@ -841,7 +912,7 @@ def run(ctx):
     n_loop = C.Budget(ctx["tier"], 150, 2500).n * scale
     cases = [body.get("case", body) for _, body in C.load_corpus("C13")]
     cases += [gen_svc_case(rng) for _ in range(n_svc)] + [gen_svc_case(rng, big=True) for _ in range(n_big)]
-    cases += [gen_req_case(rng) for _ in range(n_req)] + [gen_hear_case(rng) for _ in range(n_hear)] + [gen_hearm_case(rng) for _ in range(n_hearm)] + [gen_loop_case(rng) for _ in range(n_loop)]
+    cases += [gen_req_case(rng) for _ in range(n_req)] + [gen_req_case(rng, many=rng.choice([60, 120, 150, 150, 300])) for _ in range(C.Budget(ctx["tier"], 10, 150).n)] + [gen_hear_case(rng) for _ in range(n_hear)] + [gen_hearm_case(rng) for _ in range(n_hearm)] + [gen_loop_case(rng) for _ in range(n_loop)]
     res.rule = ("svc: cache of 0-400 PTRs (ages 0, half TTL -1/0/+1, expiry -1/0/+1, random; 2 types, re-cased owner names, noise records) x forced QU/QM/none "
                 "x multicast/unicast x an earlier asker (same instance with the same/smaller/larger cache, or a question heard as responder) at gaps "
                 "{0,1,500,998,999,1000,1001,5000}; req: lookup request queries over SRV/TXT/A/AAAA ages; hear: real host hears a question from the link; "
